@@ -13,7 +13,8 @@
   Reproduced by execution of the Rust code only (the model agrees at `Float`, but `ln`/`exp` are
   opaque to the kernel, and over ℝ the values involved are `±∞`/NaN): `NegativeBinomial::new(r, 0.0)`
   and `Poisson::new(+∞)` never terminate (`poisson::sample_unchecked(+∞)`: `alpha = 0·∞ = NaN`, the
-  acceptance test is never true); `StudentsT::new(0, 1, +∞).sample()` is NaN.
+  acceptance test is never true).  (`StudentsT::new(0, 1, +∞).sample()` used to be NaN; since the
+  source fix it is the Normal(location, scale) draw: `studentsT_sample_inf_eq_normal` in `Structure.lean`.)
 
   Strength: counterexample.
 -/
